@@ -600,6 +600,8 @@ def run(ctx):
     child_record_rules(RemapCtx(ctx, {}), 'C16-D5')
     from .common import proxy_failure_closes_rule
     proxy_failure_closes_rule(ctx, 'C16-D2')
+    from .common import proxy_pool_identity_rule
+    proxy_pool_identity_rule(ctx, 'C16-D2')
     c10.run(RemapCtx(ctx, {'C10-D1': 'C16-D1', 'C10-D2': 'C16-D1', 'C10-D3': 'C16-D1', 'C10-D4': 'C16-D1', 'C10-D5': 'C16-D1'}))
 
 
